@@ -205,19 +205,20 @@ def execute(plan, tier, seed, batch_seconds=60.0):
         if state == 'error':
             errors.append({'id': tid, 'error': res.get('error'), 'traceback': res.get('traceback')})
             continue
-        # vacuity twin
-        if tid in twins:
+        # vacuity twin: only a *confirmed* verdict needs it (a counterexample that replays natively is reachable by definition)
+        if tid in twins and state == 'confirmed':
             tw = results.get(twins[tid], {})
-            if tw.get('state') == 'confirmed' or tw.get('state') == 'pre_unsat':
-                errors.append({'id': tid, 'error': 'vacuous harness: reachability twin was not refuted',
-                               'twin_state': tw.get('state')})
+            if tw.get('state') == 'confirmed':
+                errors.append({'id': tid, 'error': 'vacuous harness: reachability twin confirmed (end of harness unreachable)'})
                 continue
-            if tw.get('state') != 'refuted' and state == 'confirmed':
+            if tw.get('state') != 'refuted':
                 state = 'inconclusive'
-                res['note'] = 'confirmed but reachability twin inconclusive'
+                res['note'] = f"confirmed but reachability twin not refuted ({tw.get('state')}): not counted"
         if state == 'pre_unsat':
-            errors.append({'id': tid, 'error': 'precondition unsatisfiable (vacuous)'})
-            continue
+            # CrossHair prints this both for an unsatisfiable precondition and when every attempted path aborted (time-outs):
+            # never a success, and not an alarm either
+            state = 'inconclusive'
+            res['note'] = 'unable to meet precondition (unsatisfiable, or every path timed out)'
         if state in ('confirmed', 'unsat', 'ok'):
             counts['confirmed'] += 1
             decided += 1
